@@ -250,8 +250,11 @@ def tok_oracle(cands):
 
 
 def model_line(fix, schema, nodes):
+    """fix: bool, or one of the tokens "v~" / "w~" / "c~" = the switch was OMITTED at octave_validate / octave_write / the CLI
+    (the extracted model then takes the default the translator read from the source)."""
     cands = py_strip_candidates(nodes, schema)
-    return f"repair {1 if fix else 0} {tok_schema(schema)} {tok_oracle(cands)} {tok_digits(cands)} {tok_doc(nodes)}"
+    fx = fix if isinstance(fix, str) else (1 if fix else 0)
+    return f"repair {fx} {tok_schema(schema)} {tok_oracle(cands)} {tok_digits(cands)} {tok_doc(nodes)}"
 
 
 def is_ascii_case(nodes, schema):
@@ -1034,6 +1037,7 @@ def _run(ctx, root, have_model, parse):
     ctx.extra["tool_priority_and_repeat_cases"] = len(must)
     m_lines, m_idx = [], []
     n_tool = 0
+    matrix_pool = []
     for sd, label, nodes, kind in tool_cases:
         name = sd.name
         try:
@@ -1057,6 +1061,8 @@ def _run(ctx, root, have_model, parse):
         case = {"schema": label, "schema_name": name, "schema_text": open(os.path.join(root, "specs", "schemas", name.lower() + ".oct.md")).read(),
                 "doc_text": text, "kind": kind}
         ctx.hist("tool_case_kind", kind)
+        if exp_log:
+            matrix_pool.append((sd, label, name, text, src, case))
         in_model = have_model and is_ascii_case(src, sd)
         # ---- octave_validate fix on / off
         for fix in (True, False):
@@ -1122,6 +1128,9 @@ def _run(ctx, root, have_model, parse):
             else:
                 ctx.hist("tool_cases", "cli:no-canonical")
     ctx.extra["tool_documents"] = n_tool
+    # -------- what switches repair on: every surface x profile spelling x switch omitted/False/True x other arguments ----
+    rng.shuffle(matrix_pool)
+    surface_matrix(ctx, root, matrix_pool[:ctx.scale(8, 100)], have_model, parse, m_lines, m_idx)
     if have_model and m_lines:
         outs = run_driver("rep", m_lines)
         for (case, path, exp), got in zip(m_idx, outs):
@@ -1173,6 +1182,189 @@ def _run(ctx, root, have_model, parse):
                 ctx.correspondence_failure({"text": t, "impl": exp, "model": got}, "mantissa test: model and Python expression differ")
         ctx.extra["oracle_texts_checked"] = len(ents)
         ctx.extra["oracle_texts_with_nonascii_digits"] = sum(1 for t in ents if not t.isascii())
+
+
+OMIT = object()
+PROFILE_SPELLINGS = [OMIT, "STRICT", "STANDARD", "LENIENT", "ULTRA", "lenient", "Lenient", "LeNiEnT", "lENIENT", "strict", "Standard",
+                     "ultra", "Ultra", ""]
+VALIDATE_EXTRAS = [
+    {},
+    {"debug_grammar": False, "grammar_hint": False, "diff_only": False, "compact": False},
+    {"debug_grammar": True, "grammar_hint": True},
+    {"compact": True},
+    {"diff_only": True},
+    {"lenient": True, "corrections_only": False},         # arguments of ANOTHER tool: must not switch anything on
+]
+WRITE_EXTRAS = [
+    {},
+    {"corrections_only": False, "parse_error_policy": "error", "debug_grammar": False, "grammar_hint": False},
+    {"corrections_only": True},
+    {"parse_error_policy": "salvage"},
+    {"debug_grammar": True, "grammar_hint": True},
+    {"fix": True, "profile": "LENIENT"},                   # arguments of ANOTHER tool: must not switch anything on
+    {"profile": "lenient"},
+]
+
+
+def repair_records(obj):
+    """Every dict anywhere in a tool result that is a REPAIR record (tier REPAIR or one of the two rule ids)."""
+    out = []
+    if isinstance(obj, dict):
+        if obj.get("tier") == "REPAIR" or obj.get("rule_id") in RULES or obj.get("code") in RULES:
+            out.append(obj)
+        for v in obj.values():
+            out += repair_records(v)
+    elif isinstance(obj, (list, tuple)):
+        for v in obj:
+            out += repair_records(v)
+    return out
+
+
+def surface_matrix(ctx, root, docs, have_model, parse, m_lines, m_idx):
+    """The switch must be the ONLY thing that turns repair on: octave_validate (`fix`), octave_write (`lenient`), the CLI
+    (`--fix`), each with the switch omitted / False / True, every profile spelling (where the surface has one), the other
+    optional arguments omitted / at their defaults / set, content and file_path input.  Switch off or omitted: the values of
+    the returned / written document equal the source and NO REPAIR record appears anywhere in the result."""
+    from click.testing import CliRunner
+    from octave_mcp.cli.main import cli
+    from octave_mcp.core.validator import Validator
+    from octave_mcp.mcp.validate import ValidateTool
+    from octave_mcp.mcp.write import WriteTool
+    A = _imports()
+    n_calls = 0
+    for di, (sd, label, name, text, src, case0) in enumerate(docs):
+        in_model = have_model and is_ascii_case(src, sd)
+        fpath = os.path.join(root, f"mx{di}.oct.md")
+        with open(fpath, "w", encoding="utf-8") as f:
+            f.write(text)
+        src_tok = tok_doc(src)
+
+        def judge(path, case, out_sections, log, records, on, model_fix):
+            """on: the switch is explicitly True (and a schema is given); log: the REPAIR entries of the result's log list;
+            records: every REPAIR-looking dict anywhere in the result."""
+            if not on:
+                if out_sections is not None and tok_doc(out_sections) != src_tok:
+                    classify(ctx, "switch off/omitted but the values of the document changed", None, case, path)
+                if records:
+                    classify(ctx, f"switch off/omitted but {len(records)} REPAIR record(s) returned: {records[:2]}", None, case, path)
+            if out_sections is not None:
+                for what, clause in check_property(src, out_sections, log, sd, on):
+                    classify(ctx, what, clause, case, path)
+                if in_model and model_fix is not None:
+                    m_lines.append(model_line(model_fix, sd, src))
+                    m_idx.append((case, path, tok_doc(out_sections) + " # " + tok_entries(log)))
+
+        # ---- octave_validate
+        for prof in PROFILE_SPELLINGS:
+            for fx in (OMIT, False, True):
+                for xi, extra in enumerate(VALIDATE_EXTRAS):
+                    for mode in (("content", "file_path") if xi == 0 else ("content",)):
+                        kw = {"schema": name}
+                        kw[mode] = text if mode == "content" else fpath
+                        if prof is not OMIT:
+                            kw["profile"] = prof
+                        if fx is not OMIT:
+                            kw["fix"] = fx
+                        kw.update(extra)
+                        shown = {k: v for k, v in kw.items() if k != "content"}
+                        case = dict(case0, call="octave_validate", arguments=shown, fix="omitted" if fx is OMIT else fx,
+                                    profile="omitted" if prof is OMIT else prof)
+                        path = f"octave_validate(fix={'omitted' if fx is OMIT else fx}, profile={'omitted' if prof is OMIT else repr(prof)})"
+                        try:
+                            r = asyncio.run(ValidateTool().execute(**kw))
+                        except Exception as e:  # noqa
+                            classify(ctx, f"octave_validate raised {type(e).__name__}: {e}", None, case, path)
+                            continue
+                        n_calls += 1
+                        ctx.count()
+                        ctx.hist("matrix", f"validate fix={'omitted' if fx is OMIT else fx}")
+                        ctx.hist("matrix_profile", "omitted" if prof is OMIT else repr(prof))
+                        if r.get("status") != "success":
+                            ctx.hist("matrix_skipped", "validate:not-success")
+                            continue
+                        can = r.get("canonical")
+                        out = parse(can).sections if isinstance(can, str) else None
+                        if out is None and not extra.get("diff_only"):
+                            ctx.hist("matrix_skipped", "validate:no-canonical")
+                        judge(path, case, out, log_from_dicts(r.get("repairs", []), "rule_id"), repair_records(r), fx is True,
+                              ("v~" if fx is OMIT else fx))
+        # ---- octave_write
+        verrs = Validator(schema=None).validate(A.Document(name="DOC", meta={"TYPE": "X", "VERSION": "1.0"}, sections=copy.deepcopy(src)),
+                                                strict=False, section_schemas={sd.name: sd})
+        gate = bool(verrs)
+        for ln in (OMIT, False, True):
+            for with_schema in (True, False):
+                for extra in WRITE_EXTRAS:
+                    wp = os.path.join(root, f"mxw{di}.oct.md")
+                    if os.path.exists(wp):
+                        os.unlink(wp)
+                    kw = {"target_path": wp, "content": text}
+                    if with_schema:
+                        kw["schema"] = name
+                    if ln is not OMIT:
+                        kw["lenient"] = ln
+                    kw.update(extra)
+                    shown = {k: v for k, v in kw.items() if k not in ("content", "target_path")}
+                    case = dict(case0, call="octave_write", arguments=shown, lenient="omitted" if ln is OMIT else ln)
+                    path = f"octave_write(lenient={'omitted' if ln is OMIT else ln}, schema={'given' if with_schema else 'omitted'})"
+                    try:
+                        r = asyncio.run(WriteTool().execute(**kw))
+                    except Exception as e:  # noqa
+                        classify(ctx, f"octave_write raised {type(e).__name__}: {e}", None, case, path)
+                        continue
+                    n_calls += 1
+                    ctx.count()
+                    ctx.hist("matrix", f"write lenient={'omitted' if ln is OMIT else ln} schema={with_schema}")
+                    if r.get("status") != "success":
+                        ctx.hist("matrix_skipped", "write:not-success")
+                        continue
+                    out = None
+                    if os.path.exists(wp):
+                        out = parse(open(wp, encoding="utf-8").read()).sections
+                        os.unlink(wp)
+                    elif not extra.get("corrections_only"):
+                        ctx.hist("matrix_skipped", "write:no-file")
+                    on = ln is True and with_schema
+                    mf = None
+                    if with_schema:
+                        mf = ("w~" if ln is OMIT else ln) if gate else False
+                    judge(path, case, out, log_from_dicts(r.get("corrections", []), "code"), repair_records(r), on, mf)
+        # ---- CLI
+        for args, stdin, on in ((["validate", fpath], None, False),
+                                (["validate", "--schema", name, fpath], None, False),
+                                (["validate", "--fix", fpath], None, False),
+                                (["validate", "--stdin", "--schema", name], text, False),
+                                (["validate", "--fix", "--schema", name, fpath], None, True),
+                                (["validate", "--stdin", "--fix", "--schema", name], text, True)):
+            res = CliRunner().invoke(cli, args, input=stdin)
+            n_calls += 1
+            ctx.count()
+            ctx.hist("matrix", "cli " + " ".join(a for a in args if a.startswith("--")))
+            outtxt = res.output
+            cut = outtxt.find("\nvalidation_status:")
+            if not (cut > 0 and outtxt.startswith("===")):
+                ctx.hist("matrix_skipped", "cli:no-canonical")
+                continue
+            out = parse(outtxt[:cut]).sections
+            shown = [a if a != fpath else "<file>" for a in args]
+            case = dict(case0, call="octave validate (CLI)", arguments=shown, stdin=stdin is not None)
+            path = "cli " + " ".join(shown)
+            mentions = any(x in outtxt[cut:] for x in RULES) or "REPAIR" in outtxt[cut:]
+            if not on:
+                if tok_doc(out) != src_tok:
+                    classify(ctx, "--fix absent (or no schema) but the values of the printed document changed", None, case, path)
+                if mentions:
+                    classify(ctx, "--fix absent (or no schema) but the output mentions a REPAIR", None, case, path)
+                if in_model and "--schema" in args:         # here --fix is absent: the model takes the CLI default
+                    m_lines.append(model_line("c~", sd, src))
+                    m_idx.append((case, path, tok_doc(out) + " # "))
+            else:
+                for what, clause in check_property(src, out, [], sd, True):
+                    classify(ctx, what, "cli-no-log" if "log is not" in what else clause, case, path)
+        os.unlink(fpath)
+        ctx.nontrivial(("matrix", label, case0["doc_text"]))
+    ctx.extra["switch_matrix_documents"] = len(docs)
+    ctx.extra["switch_matrix_calls"] = n_calls
 
 
 def replay_corpus_case(ctx, root, c, parse):
